@@ -612,6 +612,8 @@ def r8_dependent_product_average(repo: Repo, rep):
 
 
 def run(repo: Repo, rep):
+    from .c02 import r11_topped_up_count  # with a density the number of rows IS the statement about the measure: ceil(d * volume) rows, not whatever the last top-up round left
+    r11_topped_up_count(repo, rep)
     r8_dependent_product_average(repo, rep)
     from .generic import g_arg_constructor_parameters
     g_arg_constructor_parameters(repo, rep, lambda m: ".domains." in m, floor=25,
